@@ -20,7 +20,7 @@ MS = {0: "inv", 1: "pub", 2: "wpa", 3: "wprec", 4: "rprel", 5: "wprel", 6: "rpco
 
 
 def parse_cfg(words):
-    cfg = dict(proto=4, clean=1, N=20, M=0, manual=0, rof=1, ext=0, ka=60, sup=0, cbpub=-1, cbn=0)
+    cfg = dict(proto=4, clean=1, N=20, M=0, manual=0, rof=1, ext=0, ka=60, sup=0, cbpub=-1, cbn=0, cbw=0)
     for w in words:
         k, _, v = w.partition("=")
         if k in cfg:
@@ -63,19 +63,30 @@ class RealSession:
         c.on_pre_connect = lambda cl, ud: ev.append("on_pre_connect")
         c.on_connect_fail = lambda cl, ud: ev.append("on_connect_fail")
         if proto == 5:
-            c.on_connect = lambda cl, ud, flags, reason, props: ev.append(f"on_connect:{reason.value}:{flags['session present']}")
+            c.on_connect = lambda cl, ud, flags, reason, props: (ev.append(f"on_connect:{reason.value}:{flags['session present']}"), self.nested(cl) if cfg.get("cbw", 0) == 2 and reason.value == 0 else None)
             c.on_disconnect = lambda cl, ud, rc, props=None: ev.append(self._disc(rc))
             c.on_subscribe = lambda cl, ud, mid, codes, props: ev.append(f"on_subscribe:{mid}:{codes[0].value}")
             c.on_unsubscribe = lambda cl, ud, mid, props, codes: ev.append(f"on_unsubscribe:{mid}")
         else:
-            c.on_connect = lambda cl, ud, flags, rc: ev.append(f"on_connect:{int(rc)}:{flags['session present']}")
+            c.on_connect = lambda cl, ud, flags, rc: (ev.append(f"on_connect:{int(rc)}:{flags['session present']}"), self.nested(cl) if cfg.get("cbw", 0) == 2 and int(rc) == 0 else None)
             c.on_disconnect = lambda cl, ud, rc: ev.append(self._disc(rc))
             c.on_subscribe = lambda cl, ud, mid, granted: ev.append(f"on_subscribe:{mid}:{granted[0]}")
             c.on_unsubscribe = lambda cl, ud, mid: ev.append(f"on_unsubscribe:{mid}")
         self.cb_left = cfg.get("cbn", 0)
 
+        def nested(cl):
+            # the application publishes from inside a callback (stream `reentry`, no Lean model)
+            if cfg.get("cbpub", -1) >= 0 and self.cb_left > 0:
+                self.cb_left -= 1
+                info = cl.publish("cb/t", b"cb", cfg["cbpub"])
+                self.infos.append(info)
+                ev.append(f"cbpub:{cfg['cbpub']}:{int(info.rc)}:{info.mid}")
+        self.nested = nested
+
         def on_publish(cl, ud, mid):
             ev.append(f"on_publish:{mid}")
+            if cfg.get("cbw", 0) != 0:
+                return
             if cfg.get("cbpub", -1) >= 0 and self.cb_left > 0:
                 # the application publishes from inside on_publish (stream `reentry`, no Lean model)
                 self.cb_left -= 1
@@ -100,6 +111,8 @@ class RealSession:
 
     def _on_message(self, cl, ud, m):
         self.ev.append(f"on_message:{m.mid}:{m.qos}:{int(m.dup)}:{int(m.retain)}:{hx(m._topic)}:{hx(bytes(m.payload))}")
+        if self.cfg.get("cbw", 0) == 1:
+            self.nested(cl)
         if self.raise_left > 0:
             self.raise_left -= 1
             raise RuntimeError("scripted")
@@ -554,7 +567,7 @@ class ReentryStream(SessionStream):
 
     def gen(self, rng, tier):
         case = gen_case(rng, tier)
-        cfg = case[0] + f" cbpub={rng.choice([1, 1, 2])} cbn={rng.choice([1, 2, 3])}"
+        cfg = case[0] + f" cbpub={rng.choice([1, 1, 2])} cbn={rng.choice([1, 2, 3])} cbw={rng.choice([0, 0, 1, 2])}"
         # small windows make the release order visible
         if rng.random() < 0.7:
             cfg = " ".join((f"N={rng.choice([1, 1, 2])}" if w.startswith("N=") else "ext=0" if w.startswith("ext=") else w) for w in cfg.split())
